@@ -136,8 +136,46 @@ class SimSocket(object):
             raise (OSError(32, 'Broken pipe (sim)') if r == 'error' else Boom('sendall'))
         w.on_write(self, data)
 
+    def _k_recv(self, buf, n, tls):
+        """Transport model of C18: kernel buffer + (for TLS) a record layer with its own plaintext buffer."""
+        w = self.w
+        k = w.k
+        if n > len(buf):
+            raise ValueError('buffer too small for requested bytes')
+        if tls:
+            if not k['tbuf']:
+                if k['kbuf']:
+                    r = min(k['rec'], len(k['kbuf']))
+                    k['tbuf'] = bytes(k['kbuf'][:r])
+                    del k['kbuf'][:r]
+                elif k['eof']:
+                    w.rec({"k": "rd", "sock": self.st.id, "what": "eof", "n": 0})
+                    return 0
+                else:
+                    w.rec({"k": "stall", "why": "TLS read with nothing to decrypt"})
+                    raise Watchdog('blocking TLS read would never return')
+            cap = min(n, len(k['tbuf']), k['short'] or n)
+            out, k['tbuf'] = k['tbuf'][:cap], k['tbuf'][cap:]
+        else:
+            if not k['kbuf']:
+                if k['eof']:
+                    w.rec({"k": "rd", "sock": self.st.id, "what": "eof", "n": 0})
+                    return 0
+                w.rec({"k": "stall", "why": "read on an empty kernel buffer"})
+                raise Watchdog('blocking read would never return')
+            out = bytes(k['kbuf'][:n])
+            del k['kbuf'][:len(out)]
+        buf[:len(out)] = out
+        w.consumed += len(out)
+        ic = sum(1 for e in (w.item_ends or []) if e <= w.consumed)
+        w.rec({"k": "rd", "sock": self.st.id, "what": "data", "n": len(out), "pos": w.consumed, "ic": ic,
+               "fpos": w.consumed - w.http_len, "asked": n})
+        return len(out)
+
     def recv_into(self, buf, n):
         w = self.w
+        if w.k is not None:
+            return self._k_recv(buf, n, False)
         if n > len(buf):
             raise ValueError('buffer too small for requested bytes')
         st = self.st
@@ -215,8 +253,14 @@ class SimTLS(object):
     def __getattr__(self, name):
         return getattr(self._s, name)
 
+    def recv_into(self, buf, n):
+        if self._s.w.k is not None:
+            return self._s._k_recv(buf, n, True)
+        return self._s.recv_into(buf, n)
+
     def pending(self):
-        return 0
+        k = self._s.w.k
+        return len(k['tbuf']) if k is not None else 0
 
 
 class _SimSSLContext(object):
@@ -367,6 +411,11 @@ class World(object):
         self.item_ends = None
         self.on_frame_written = None
         self.last_app_payload = None
+        self.k = None
+        tr = sc.get('transport')
+        if tr:
+            self.k = {'kbuf': bytearray(), 'tbuf': b'', 'eof': False, 'rec': tr.get('rec', 16384), 'short': tr.get('short'),
+                      'bursts': None, 'bi': 0, 'arrived': 0}
         self.pconsumed = 0
         self.plen = 0
         self.watch_steps = 0
@@ -550,6 +599,8 @@ class World(object):
         st = [s for s in self.socks if 100 + s.id == fd]
         st = st[0] if st else None
         want = -1 if timeout is None else int(round(timeout * 1000 / self.tick))
+        if self.k is not None:
+            return self.k_wait(want, timeout)
         if st is not None and st.leftover:
             self.rec({"k": "wait", "dt": 0, "ready": True, "want": want, "why": "leftover"})
             return True
@@ -586,6 +637,43 @@ class World(object):
             st.cur = s
         self.rec({"k": "wait", "dt": dt, "ready": True, "want": want, "why": s['kind']})
         return True
+
+
+def _k_wait(self, want, timeout):
+    """Selector wait in the C18 transport model: readiness is a property of the kernel buffer only."""
+    k = self.k
+    if k['bursts'] is None:
+        data = self.concretise_stream()
+        tr = self.sc['transport']
+        sizes = [self.http_len] + list(tr.get('bursts', []))
+        rest = len(data) - sum(sizes)
+        if rest > 0:
+            sizes.append(rest)
+        k['bursts'] = sizes
+        k['dts'] = [0] + list(tr.get('dts', [])) + [1] * len(sizes)
+        k['data'] = data
+    if k['kbuf'] or k['eof']:
+        self.rec({"k": "wait", "dt": 0, "ready": True, "want": want, "why": "kernel"})
+        return True
+    # about to block: whatever has arrived must have been handed to the client by now
+    self.rec({"k": "block", "tbuf": len(k['tbuf']), "consumed": self.consumed, "arrived": k['arrived']})
+    self.watch_steps += 1
+    if k['bi'] < len(k['bursts']):
+        n = k['bursts'][k['bi']]
+        dt = k['dts'][k['bi']]
+        k['bi'] += 1
+        self.ticks += dt
+        piece = k['data'][k['arrived']:k['arrived'] + n]
+        k['kbuf'] += piece
+        k['arrived'] += len(piece)
+        self.rec({"k": "arr", "n": len(piece), "upto": k['arrived'] - self.http_len})
+        return True
+    k['eof'] = True
+    self.rec({"k": "arr", "n": 0, "upto": k['arrived'] - self.http_len, "eof": True})
+    return True
+
+
+World.k_wait = _k_wait
 
 
 class Watchdog(BaseException):
